@@ -63,6 +63,12 @@ func c33SkipID(mod string) string { return "C33-" + mod + "-skip-failed-segment"
 func c33NoopID(mod string) string { return "C33-" + mod + "-noop-store-offset0" }
 func c33LfsID(mod string) string  { return "C33-" + mod + "-lfs-failure-drops-record" }
 
+// weighted choices (rapid favours early entries a little, hence "none" first)
+var (
+	c33CycleFaults = []string{"none", "none", "none", "none", "none", "none", "none", "none", "list", "claim", "none", "none"}
+	c33SegFaults   = []string{"none", "none", "none", "none", "none", "none", "decode", "sink", "load", "commit-before", "commit-after", "sink", "decode", "none", "none", "none"}
+)
+
 // c33GenPlan draws a plan. withLfs enables LFS envelopes (iceberg).
 func c33GenPlan(t *rapid.T, mod string, withLfs bool) c33Plan {
 	p := c33Plan{Mod: mod, Faults: map[c33FaultKey]string{}, Lfs: map[int64]bool{}, LfsFaults: map[[2]int64]bool{}, Excluded: map[string]bool{}, Clean: 2}
@@ -94,23 +100,19 @@ func c33GenPlan(t *rapid.T, mod string, withLfs bool) c33Plan {
 	}
 	for c := 0; c < p.Cycles; c++ {
 		p.Visible = append(p.Visible, vis)
-		if r := rapid.IntRange(0, 99).Draw(t, "cycle-fault"); r < 8 {
+		switch rapid.SampledFrom(c33CycleFaults).Draw(t, "cycle-fault") {
+		case "list":
 			p.Faults[c33FaultKey{c, -1, "list"}] = "before"
-		} else if r < 14 {
+		case "claim":
 			p.Faults[c33FaultKey{c, -1, "claim"}] = "before"
 		}
 		for s := 0; s < vis; s++ {
-			r := rapid.IntRange(0, 99).Draw(t, "seg-fault")
-			switch {
-			case r < 7:
-				p.Faults[c33FaultKey{c, s, "load"}] = "before"
-			case r < 17:
-				p.Faults[c33FaultKey{c, s, "decode"}] = "before"
-			case r < 28:
-				p.Faults[c33FaultKey{c, s, "sink"}] = "before"
-			case r < 33:
+			switch f := rapid.SampledFrom(c33SegFaults).Draw(t, "seg-fault"); f {
+			case "load", "decode", "sink":
+				p.Faults[c33FaultKey{c, s, f}] = "before"
+			case "commit-before":
 				p.Faults[c33FaultKey{c, s, "commit"}] = "before"
-			case r < 38:
+			case "commit-after":
 				p.Faults[c33FaultKey{c, s, "commit"}] = "after"
 			}
 			if lfsMode {
